@@ -95,6 +95,7 @@ type vfSession struct {
 	mdnsSignalling    bool     // C06: signalled host candidates are sometimes mDNS names (already resolved, as the agent would)
 	mappedSignalling  bool     // C06: signalled IPv4 candidates are sometimes spelled ::ffff:a.b.c.d
 	peerMute          bool     // C03: the scripted peer withholds every response
+	flooded           bool     // C07: the receive-buffer flood was done in this session
 	agents            sync.Map // side name -> *Agent (read from the switch's emit hook)
 	ucMu              sync.Mutex
 	ucWhileControlled []string // USE-CANDIDATE requests that left an agent while its role was controlled
